@@ -1,9 +1,14 @@
 """C14 — a_star_search returns a valid, shortest path between the cells the caller named.
 
 Exhaustive enumeration (engine E1): every layout of small grids over {free, barrier[, NaN]} x every (start, goal)
-cell pair x connectivity {4, 8} x snap flags, and every coordinate system x every way of naming a cell (its own
-coordinates / a point displaced by +-0.49 cell) on free and single-barrier layouts.  Each result is read as a chain
+cell pair x connectivity {4, 8} x snap flags (3x4 in the quick tier: every layout with at most 3 barriers, snapping
+off), and every coordinate system (all four axis orientations, fractional steps, offsets) x every way of naming a cell
+(its own coordinates / a point displaced by +-0.49 cell) on free and single-barrier layouts, own coordinates on every
+2x4 layout.  Each result is read as a chain
 by xrmc.oracles.astar and compared with Dijkstra on the same move set."""
+import itertools
+import re
+
 import numpy as np
 
 from ..core.digest import bytes64
@@ -16,7 +21,8 @@ LEVEL = "model_checking"
 RULE = ("rank = mixed-radix number (layout, coordinate system, connectivity, start cell, start displacement, goal "
         "cell, goal displacement, snap flags); layouts = every assignment of the alphabet letters to the cells of "
         "the shape (simplest first: rank 0 = all free; '_sym' spaces: one representative per orbit of the symmetry "
-        "group of the rectangle; 'le1' = all free + every single-barrier layout); an end point is named by the "
+        "group of the rectangle; 'leN' = every layout with at most N barrier cells, fewest barriers first: 'le1' = all "
+        "free + every single-barrier layout, 'le3' on 3x4 = 1 + 12 + 66 + 220 layouts); an end point is named by the "
         "coordinates ys[i]+dy*step_y, xs[j]+dx*step_x with dy,dx in {0,-0.49,+0.49} (0,0 = the cell's own "
         "coordinates).  One implementation call per case (+ up to a few diagnostic calls on a failing case, counted "
         "as impl calls, that only choose the label of the violation).  A case is non-trivial when the optimal route "
@@ -39,6 +45,8 @@ ASSUMPTIONS = [
     "spaces without the '_res' suffix pass no attribute (cell size computed from the coordinates)",
     "surface values other than free/barrier/NaN letters, friction, dask/cupy backends (a_star_search has none) "
     "are not explored; start == goal on a crossable cell is asserted as the one-cell chain {start: 0}",
+    "quick tier: 3x4 is explored for the layouts with at most 3 barrier cells (299 of 4096) with snapping off; the "
+    "thorough tier takes every 3x4 layout",
     "thorough tier, to stay inside the time budget: 3x4 and 2x6 take the snap flags both-off / both-on (mixed "
     "flags are enumerated in full on 2x2, 3x3, 2x4, 2x3), 4x4 takes snapping off only; the coordinate spaces use "
     "connectivity 8 and the flag sets listed in the bounds (the coordinate -> cell step does not depend on them)",
@@ -60,6 +68,9 @@ ALPHABETS = {
 SYSTEMS = {
     "unit": ((0.0, 1.0, False), (0.0, 1.0, False)),
     "ydesc": ((0.0, 1.0, True), (0.0, 1.0, False)),
+    # the other two axis orientations (with 'unit' and 'ydesc': y ascending/descending x x ascending/descending)
+    "xdesc": ((0.0, 1.0, False), (0.0, 1.0, True)),
+    "ydesc_xdesc": ((0.0, 1.0, True), (0.0, 1.0, True)),
     "step0.1": ((0.0, 0.1, False), (0.0, 0.1, False)),
     "step0.25": ((0.0, 0.25, False), (0.0, 0.25, False)),
     "step1_3": ((0.0, 1.0 / 3.0, False), (0.0, 1.0 / 3.0, False)),
@@ -130,8 +141,11 @@ class AStarSpace(Space):
                 self.layout_ranks = sym_layouts(self.h, self.w, self.k)
             elif layouts == "free":
                 self.layout_ranks = [0]
-            elif layouts == "le1":
-                self.layout_ranks = [0] + [self.k ** (self.n - 1 - c) for c in range(self.n)]
+            elif re.fullmatch(r"le[0-9]+", layouts):
+                # every layout with at most N cells holding letter 1 (the barrier), all others free; fewest first
+                self.layout_ranks = [sum(self.k ** (self.n - 1 - c) for c in cells)
+                                     for m in range(int(layouts[2:]) + 1)
+                                     for cells in itertools.combinations(range(self.n), m)]
             else:
                 raise ValueError(layouts)
             nlay = len(self.layout_ranks)
@@ -399,6 +413,9 @@ def _spaces(tier):
         P("paths_2x2_fb", (2, 2)),
         P("paths_3x3_fb", (3, 3)),
         P("paths_2x4_fb", (2, 4)),
+        # smallest shape on which a cell can be re-relaxed through a shorter route while still open (a turn around
+        # the end of a wall): every layout with <= 3 barriers, snapping off
+        P("paths_3x4_fb_le3", (3, 4), layouts="le3", flags=FLAGS_OFF),
         P("paths_2x3_fbn", (2, 3), "fbn"),
         P("paths_2x2_ffbb", (2, 2), "ffbb"),
         P("paths_2x2_fzn", (2, 2), "fzn"),
